@@ -88,7 +88,7 @@ class Op:
             return 'res[0] = %s;' % self.cvt(('%s%s' % (x, o)) if self.post else ('%s%s' % (o, x)))
         if k == 'fetch':
             arg = str(self.v) if self.T == 'ptr' else self.lit(self.v)
-            return 'atomic_fetch_%s(&%s, %s); res[0] = 0;' % (self.fetch, x, arg)
+            return 'res[0] = %s;' % self.cvt('atomic_fetch_%s(&%s, %s)' % (self.fetch, x, arg))       # the value before the update (7.17.7.5)
         if k == 'exchange':
             return 'res[0] = %s;' % self.cvt('atomic_exchange(&%s, %s)' % (x, self.lit(self.v)))
         if k == 'flag':
@@ -127,7 +127,7 @@ class Op:
                 n = x + (1 if self.inc else -1)
                 return n, (x if self.post else n, 0)
             if k == 'fetch':
-                return (x + self.v if self.fetch == 'add' else x - self.v), (0, 0)
+                return (x + self.v if self.fetch == 'add' else x - self.v), (x, 0)
             if k == 'exchange':
                 return self.v, (x, 0)
             if k == 'cas':
@@ -147,7 +147,7 @@ class Op:
             return n, (x if self.post else n, 0)
         if k == 'fetch':
             r = {'add': x + v, 'sub': x - v, 'or': x | v, 'xor': x ^ v, 'and': x & v}[self.fetch]
-            return conv(r, T), (0, 0)
+            return conv(r, T), (x, 0)
         if k == 'exchange':
             return v, (x, 0)
         if k == 'flag':
@@ -160,7 +160,7 @@ class Op:
         return x, (x, 0)
 
     def checks_result(self):
-        return self.kind != 'fetch'
+        return True
 
 
 def mem_to_state(op, memhex):
@@ -205,7 +205,6 @@ class C16:
             'one of the two sequential orders of the Python model; (B) real-thread stress programs with invariants valid under every linearisation. '
             'non-trivial = the schedule switches between the processes at least twice while both are inside their operation; distinct by (operations, access paths, initial value, schedule).')
     assumptions = ['layer A treats one machine instruction as indivisible (true for aligned accesses and lock-prefixed instructions): a missing lock prefix is only visible to layer B, probabilistically',
-                   'the value returned by atomic_fetch_* (chibicc returns the new value) is not part of the statement and is not checked',
                    'absence of violations over the explored schedules is not a proof of linearizability']
 
     def budget(self, tier):
@@ -416,6 +415,11 @@ def stress_programs(n):
     out.append(('exchange-conservation', hdr + 'static _Atomic long box = 7; static _Atomic long taken;\nstatic void *th(void *a) { long id = (long)a; long mine = 0; ready += 1; while (!go) ; for (long i = 0; i < N; i++) { mine += atomic_exchange(&box, id * N + i + 1); } taken += mine; return 0; }\n'
                 'int main(void) { pthread_t t[T]; for (long i = 0; i < T; i++) pthread_create(&t[i], 0, th, (void *)i); while (ready != T) ; go = 1; for (int i = 0; i < T; i++) pthread_join(t[i], 0);\n'
                 '  long put = 7; for (long id = 0; id < T; id++) for (long i = 0; i < N; i++) put += id * N + i + 1; printf("%s\\n", taken + box == put ? "ok" : "LOST"); return 0; }\n'))
+    # ticket dispenser: the values returned by atomic_fetch_add are the tickets 0 .. T*K-1, each exactly once
+    out.append(('fetch-add-tickets', hdr + 'static _Atomic long next; static _Atomic long sum; static _Atomic unsigned char seen[T * (N / 8)];\n'
+                'static void *th(void *a) { long mine = 0; ready += 1; while (!go) ; for (long i = 0; i < N / 8; i++) { long t = atomic_fetch_add(&next, 1); mine += t; seen[t] += 1; } sum += mine; return 0; }\n'
+                'int main(void) { pthread_t t[T]; for (long i = 0; i < T; i++) pthread_create(&t[i], 0, th, (void *)i); while (ready != T) ; go = 1; for (int i = 0; i < T; i++) pthread_join(t[i], 0);\n'
+                '  long m = (long)T * (N / 8), dup = 0; for (long i = 0; i < m; i++) dup += seen[i] != 1; printf("%s\\n", next == m && sum == m * (m - 1) / 2 && dup == 0 ? "ok" : "LOST"); return 0; }\n'))
     # CAS increment on a short
     out.append(('cas-increment', hdr + 'static _Atomic unsigned short c;\nstatic _Atomic long done;\nstatic void *th(void *a) { ready += 1; while (!go) ; for (long i = 0; i < N / 8; i++) { unsigned short e = c; while (!atomic_compare_exchange_strong(&c, &e, (unsigned short)(e + 1))) ; done += 1; } return 0; }\n'
                 'int main(void) { pthread_t t[T]; for (long i = 0; i < T; i++) pthread_create(&t[i], 0, th, (void *)i); while (ready != T) ; go = 1; for (int i = 0; i < T; i++) pthread_join(t[i], 0);\n'
